@@ -26,6 +26,7 @@ type Feat struct {
 	Funcs, Slices, Strings, Switch, ForRange, For3, FileOps, AppCalls, Input, MultiRet, Panic, Comments bool
 	MaxTop, MaxBody, MaxDepth, MaxExpr, MaxFuncs int
 	PublicFuncs                              bool // generate exported (capitalised) functions and globals
+	NamePool                                 bool // draw function names from a small shared pool (different programs then define the same names in different orders)
 }
 
 // RandomFeat draws a feature subset and size knobs ("swarm" style).
@@ -532,6 +533,24 @@ func (g *pgen) funcDef(globals []variable, public bool) FuncSig {
 		prefix = "F"
 	}
 	sig := FuncSig{Name: g.fresh(prefix)}
+	if g.f.NamePool && !public {
+		pool := []string{"alpha", "beta", "gamma", "delta", "eps", "zeta"}
+		free := []string{}
+		for _, n := range pool {
+			used := false
+			for _, f := range g.funcs {
+				if f.Name == n {
+					used = true
+				}
+			}
+			if !used {
+				free = append(free, n)
+			}
+		}
+		if len(free) > 0 {
+			sig.Name = r.Pick(free)
+		}
+	}
 	env := append([]variable{}, globals...)
 	ps := []string{}
 	for n := r.Intn(4); n > 0; n-- {
